@@ -162,7 +162,7 @@ func (boltTrans boltTransaction) Get(id []byte) ([]byte, error) {
 func (boltTrans boltTransaction) HasKey(id []byte) bool {
 	b := boltTrans.tx.Bucket(graphBucket)
 	d := b.Get([]byte(id))
-	return d == nil
+	return d != nil
 }
 
 // View runs an iterator on bolt keyvalue store during transaction
